@@ -345,6 +345,7 @@ def run(ctx):
                 continue
             sources.append(("gen-%s%d.sunsynth" % (t.replace(" ", ""), k), api.Synth(gen.rand_module(rnd, cl[t], spec, depth=1, in_project=False)).read()))
     per = 16 if q else 80
+    ncopy = [0]
     traces = []
     kinds = {}
     for name, data in sources:
@@ -366,6 +367,10 @@ def run(ctx):
             w = kind.startswith("payload.") and "Sampler" not in json.dumps(pth) and not name.startswith("sampler")
             edited, ych = {"kind": "none"}, []
             try:
+                ncopy[0] += 1
+                if ncopy[0] % 3 == 0:       # the edit is made on a copy.deepcopy of the loaded object (a template copied per variation)
+                    import copy as _copy
+                    o2 = _copy.deepcopy(o2)
                 fn(o2)
                 if w:
                     edited = projection.project_any(o2, spec, False)
